@@ -69,6 +69,14 @@ func cliCase(f []string) string {
 		}
 		args = append(args, "-s", k+"="+c.switches[k])
 	}
+	// every other case writes through -o into a file that already holds (longer) stale content:
+	// the program must replace the file, not overwrite its beginning
+	useOut := len(src)%2 == 1
+	outPath := filepath.Join(dir, "out.inc")
+	if useOut {
+		ioutil.WriteFile(outPath, []byte(strings.Repeat("STALE OUTPUT LINE\n", 16384)), 0644)
+		args = append(args, "-o", "out.inc")
+	}
 	cmd := exec.Command(cli, args...)
 	cmd.Dir = dir
 	if c.path == "" {
@@ -91,7 +99,18 @@ func cliCase(f []string) string {
 	}
 	var got string
 	if werr == nil {
-		got = "OK " + hx(so.String())
+		text := so.String()
+		if useOut {
+			b, rerr := ioutil.ReadFile(outPath)
+			if rerr != nil {
+				text = "<-o file unreadable> " + text
+			} else if so.Len() != 0 {
+				text = "<output on stdout although -o was given> " + text
+			} else {
+				text = string(b)
+			}
+		}
+		got = "OK " + hx(text)
 	} else {
 		// warnings about the font configuration go to the same stream; the error is what counts
 		kept := []string{}
